@@ -7,7 +7,7 @@ namespace Rain.Loop
 
 /-- The picker has been run, in this op, for every connected peer that has no download. -/
 def Repicked (s : St) : Prop :=
-  s.status = .downloading → ∀ p ∈ s.peers, s.findDl p.k = none → p.k ∈ s.mayStart
+  s.status = .downloading → s.loaded = true → ∀ p ∈ s.peers, s.findDl p.k = none → p.k ∈ s.mayStart
 
 theorem startDlFor_mayStart_mono (s : St) (k k' : Nat) (h : k' ∈ s.mayStart) : k' ∈ (s.startDlFor k).mayStart := by
   unfold St.startDlFor
@@ -18,7 +18,9 @@ theorem startDls_spec (s : St) :
   unfold Repicked
   unfold St.startDls
   split
-  · next hst =>
+  · next hst0 =>
+    have hst : s.status = .downloading := by
+      simp only [Bool.and_eq_true, decide_eq_true_eq] at hst0; exact hst0.1
     -- invariant of the fold over a suffix `l` of the peer list
     have key : ∀ (l : List Peer) (t : St), t.status = .downloading → t.peers = s.peers → t.dls = s.dls →
         (∀ p ∈ l, p ∈ s.peers) →
@@ -65,18 +67,18 @@ theorem startDls_spec (s : St) :
           · exact e q hq hqn
     have := key s.peers s hst rfl rfl (fun _ h => h)
     obtain ⟨_, b, c, d, e⟩ := this
-    refine ⟨d, fun _ p hp hn => ?_⟩
+    refine ⟨d, fun _ _ p hp hn => ?_⟩
     rw [b] at hp
     apply e p hp
     simpa [St.findDl, c] using hn
-  · next hst => exact ⟨fun _ h => h, fun h => absurd h hst⟩
+  · next hst => exact ⟨fun _ h => h, fun h hl => absurd (by simp [h, hl]) hst⟩
 
 theorem Repicked.congr {s s' : St} (h : Repicked s) (h1 : s'.status = s.status) (h2 : s'.peers = s.peers)
-    (h3 : s'.dls = s.dls) (h4 : s'.mayStart = s.mayStart) : Repicked s' := by
+    (h3 : s'.dls = s.dls) (h4 : s'.mayStart = s.mayStart) (h5 : s'.loaded = s.loaded) : Repicked s' := by
   unfold Repicked at *
-  rw [h1, h2, h4]
-  intro hs p hp hn
-  exact h hs p hp (by simpa [St.findDl, h3] using hn)
+  rw [h1, h2, h4, h5]
+  intro hs hl p hp hn
+  exact h hs hl p hp (by simpa [St.findDl, h3] using hn)
 
 /-- **closePeer re-picks** (fix of finding C10-F1). -/
 theorem closePeer_repicks (s : St) (k : Nat) (hk : (s.findPeer k).isSome) : Repicked (s.closePeer k) := by
@@ -85,7 +87,7 @@ theorem closePeer_repicks (s : St) (k : Nat) (hk : (s.findPeer k).isSome) : Repi
   · next h => simp [h] at hk
   · dsimp only
     split
-    · exact (startDls_spec _).2.congr (by simp [St.status]) rfl rfl rfl
+    · exact (startDls_spec _).2.congr (by simp [St.status]) rfl rfl rfl rfl
     · exact (startDls_spec _).2
 
 /-- **A choke re-picks**: the choked download's piece may be taken by someone else. -/
